@@ -19,6 +19,7 @@ from ..index import Repo, AnchorError
 from ..cfg import CFG, path_of
 from ..astutil import unparse, call_name, func_params, strip_docstring
 from .common import site
+from ..pattern import norm as pn
 
 PDE = "cuqi/pde/_pde.py"
 
@@ -44,13 +45,13 @@ def _tbl(repo, ci, fn_src, atoms, level=4, keep=None):
     """decision table of a small dispatch function on its canonical view"""
     from .common import canon_fn, canon_keep
     from ..pathtable import table
-    from ..pattern import norm as pn
+    pass
     v = canon_keep(repo, ci, fn_src, keep, subst=True) if keep is not None else canon_fn(repo, ci, fn_src, level)
     return table(v, atoms, pn)
 
 
 def _ct(t):
-    from ..pattern import norm as pn
+    pass
     from ..canon import _SymOrder
     return pn(_SymOrder().visit(ast.parse(t, mode="eval").body))
 
@@ -58,7 +59,7 @@ def _ct(t):
 def _r1(chk, repo):
     from .common import canon_fn, stmts
     from ..pathtable import walk
-    from ..pattern import norm as pn
+    pass
     pm = repo.cls("cuqi/model/_model.py:PDEModel")
     ff = repo.method(pm, "_forward_func")[1]
     x = func_params(ff)[1]
@@ -71,14 +72,28 @@ def _r1(chk, repo):
                f"forward map of the PDE model is not assemble(parameter) -> solve -> observe(solution): returns `{unparse(res)[:100] if kind == 'return' else kind}`"
                f"{'' if asm_ok else ' without first assembling at the given parameter'}", ff)
     init = repo.method(pm, "__init__")[1]
-    t = _norm(init)
-    ok = "super().__init__(self._forward_func,range_geometry,domain_geometry,gradient=self._gradient_func)" in t and "self.pde=PDE" in t
+    from .common import method_effects as _me, KwCanon as _KC, expected_text as _et
+    mbase = repo.method(repo.cls("cuqi/model/_model.py:Model"), "__init__")[1]
+    ip = func_params(init)
+    eff = _me(repo, pm, init)
+
+    def _sup_ok(calls):
+        # exactly one call of the base constructor, binding forward -> self._forward_func, gradient -> self._gradient_func and both geometries
+        sup = [c for c in calls if c.startswith("super().__init__(")]
+        if len(sup) != 1:
+            return False
+        c = ast.parse(sup[0].replace("super().__init__", "_BASE"), mode="eval").body
+        k = _KC().add("_BASE", mbase).visit(c)
+        kw = {x.arg: pn(x.value) for x in k.keywords} if isinstance(k, ast.Call) and not k.args else {}
+        return kw.get("forward") == "self._forward_func" and kw.get("gradient") == "self._gradient_func" and kw.get("range_geometry") == ip[2] and kw.get("domain_geometry") == ip[3]
+    eff = [e for e in eff if e["kind"] != "raise"]
+    ok = bool(eff) and all(e["kind"] in ("fall", "return") and e["stores"].get("self.pde") == ip[1] and _sup_ok(e["calls"]) for e in eff)
     chk.add("C18-R1", f"{pm.qual}.__init__", ok, site(repo, init), "model wraps its own _forward_func/_gradient_func and stores the PDE", "PDEModel wiring changed", init)
     ss = repo.cls(f"{PDE}:SteadyStateLinearPDE")
     asm = repo.method(ss, "assemble")[1]
     p = func_params(asm)[1]
     from .common import method_effects
-    from ..pattern import norm as pn
+    pass
     eff = method_effects(repo, ss, asm)
     okA = bool(eff) and all(e["kind"] in ("fall", "return") and e["stores"] == {"self.diff_op": pn(f"self.PDE_form({p})[0]"), "self.rhs": pn(f"self.PDE_form({p})[1]")} for e in eff)
     chk.add("C18-R1", f"{ss.qual}.assemble", okA, site(repo, asm), "(diff_op, rhs) = PDE_form(parameter)", f"assemble does {eff}", asm)
@@ -123,7 +138,7 @@ def _r2(chk, repo):
     asm = repo.method(td, "assemble_step")[1]
     t = func_params(asm)[1]
     from .common import method_effects
-    from ..pattern import norm as pn
+    pass
     body = method_effects(repo, td, asm)
     CALLT = f"self.PDE_form(self._parameter,{t})"
     ok = bool(body) and all(e["kind"] in ("fall", "return") and e["stores"] == {"self.diff_op": pn(CALLT + "[0]"), "self.rhs": pn(CALLT + "[1]"), "self.initial_condition": pn(CALLT + "[2]")} for e in body)
@@ -212,8 +227,13 @@ def _r3(chk, repo):
         if p is None or p.setter is None:
             raise AnchorError(f"PDE.{name} setter not found")
         v = func_params(p.setter)[1]
-        t = [_norm(s) for s in p.setter.body]
-        ok = f"self._grids_equal=self._compare_grid({v},{other})" in t and f"self._{name}={v}" in t
+        from .common import method_effects as _me2
+        eff = _me2(repo, base, p.setter)
+        eff = [e for e in eff if e["kind"] != "raise"]
+        # on every path the flag is recomputed from the value that is stored (the given one, or its documented default) and the other grid
+        ok = bool(eff) and all(e["kind"] in ("fall", "return") and e["stores"].get(f"self._{name}") in (v, other)
+                               and e["stores"].get("self._grids_equal") in (pn(f"self._compare_grid({e['stores'].get(f'self._{name}')},{other})"),
+                                                                            pn(f"self._compare_grid({other},{e['stores'].get(f'self._{name}')})")) for e in eff)
         chk.add("C18-R3", f"{base.qual}.@{name}=", ok, site(repo, p.setter), "recomputes _grids_equal against the other grid",
                 f"assigning {name} does not recompute the grids-equal flag: observe() would keep restricting instead of interpolating after the grid changed", p.setter)
     cg = repo.method(base, "_compare_grid")[1]
@@ -222,7 +242,7 @@ def _r3(chk, repo):
     tb = _tbl(repo, base, cg, atoms)
     # equal lengths may also be spelled with the operands swapped or as a negated inequality: give the walk all spellings
     from ..pathtable import walk
-    from ..pattern import norm as pn
+    pass
     from .common import canon_fn
     cgv = canon_fn(repo, base, cg, 4)
     bad, und = [], []
@@ -344,7 +364,7 @@ def _r4(chk, repo):
     A, b, solve, kw = func_params(fn)[1:5]
     from .common import canon_fn
     from ..pathtable import walk
-    from ..pattern import norm as pn
+    pass
     v = canon_fn(repo, lp, fn, 1)
     CALL = f"{solve}({A},{b},**{kw})"
     problems, und = [], []
